@@ -26,7 +26,7 @@ HERE = os.path.dirname(os.path.abspath(__file__))
 sys.path.insert(0, os.path.dirname(HERE))
 
 from sa.model import Repo, AnalysisError  # noqa: E402
-from sa.report import Check  # noqa: E402
+from sa.report import Check, run_rules  # noqa: E402
 from sa.survey import _offsets, _rng, _u  # noqa: E402
 
 
@@ -117,7 +117,7 @@ def _run_one(i):
         try:
             mod = importlib.import_module("sa.rules.%s" % prop.lower())
             chk = Check(prop, "quick", r2, quiet=True)
-            mod.check(chk)
+            run_rules(mod, chk)
             new_v = [v for v in chk.violations if v["key"] not in base_keys]
             if new_v:
                 return (i, "false-alarm", prop + ": " + "; ".join("%s %s" % (v["rule"], v["instance"][:70]) for v in new_v[:2]))
@@ -134,7 +134,7 @@ def run(props, repo, kinds=None, funcs=None, jobs=16):
     for prop in props:
         mod = importlib.import_module("sa.rules.%s" % prop.lower())
         base = Check(prop, "quick", repo, quiet=True)
-        mod.check(base)
+        run_rules(mod, base)
         analysed |= set(base.funcs_analysed)
         base_keys |= {v["key"] for v in base.violations}
     items, btexts = [], {}
